@@ -222,10 +222,16 @@ class IGen:
         n_mod = r.randint(1, 2)
         for i in range(n_inc):
             nested = None
-            if r.random() < 0.3:
+            k = r.random()
+            if k < 0.3:
                 nested = ["include", C("leaf"), self.pick([None, True, False]), False]
                 tpls["leaf"] = self.show("leaf")
                 self.info.add("nested_include")
+            elif k < 0.4:
+                # an existing template whose own include is missing: `ignore missing`
+                # at the outer site must not swallow this
+                nested = ["include", C("nope_inner"), None, False]
+                self.info.add("nested_missing")
             tpls[f"inc{i}"] = self.helper_inc(f"inc{i}", nested)
         for i in range(n_mod):
             nested = None
@@ -317,6 +323,10 @@ class IGen:
             nm = f"mm{self.next()}"
             return [["macro", nm, [["mv", C(5)]], self.site(incs, mods, data, depth + 1)],
                     ["out", ["call", N(nm), [], []]]]
-        if k < 0.92:
-            return [["set", "p", C(20 + self.next())]]
+        if k < 0.88 and depth == 0:
+            # inside a block: no local-variable dump, only the context itself
+            self.info.add("in_block")
+            return [["block", f"blk{self.next()}", self.site(incs, mods, data, depth + 1), False, False]]
+        if k < 0.95:
+            return [["set", self.pick(["p", "p", "q", "g"]), C(20 + self.next())]]
         return [T(f"[m{self.next()}]")]
